@@ -362,6 +362,13 @@ def _run_history(sc, want_idempotence=True, faults=None, audits=True):
             foreign = [c for c in changed if not is_manifest_path(c)]
             if foreign:
                 violations.append(viol('own.non-manifest-touched', '%s changed non-Manifest objects %r' % (what, foreign[:5]), sig='snapshot'))
+            # a file that merely carries a Manifest-like name: not a Manifest in use, not even parseable as one, and not
+            # written by this operation - yet gone afterwards
+            wr_all = set(p_ for e_ in seam.write_events if e_[0] >= opi - 2 and e_[1] in ('open.w', 'write', 'rename') for p_ in e_[2].split(' -> '))
+            gone = [c for c in changed if is_manifest_path(c) and c in snap0 and c not in snap1 and snap0[c][0] == 'file'
+                    and c not in before and c not in valid_before and c not in wr_all]
+            if gone:
+                violations.append(viol('own.non-manifest-touched', '%s removed %r, a data file that only has a Manifest-like name' % (what, gone[:5]), sig='name-alike-removed'))
             wev = [e for e in seam.write_events if e[0] >= opi - 2]
             bad = [e for e in wev if not all(is_manifest_path(p) for p in e[2].split(' -> '))]
             if bad:
